@@ -498,6 +498,12 @@ theorem C10_merge_year_tie :
     mergeParsed [yearWide, yearAscii] = ["© ２０１９ X".toList] ∧
     ¬ MergeStable [yearAscii, yearWide] := year_tie_witness
 
+/-- **The proposed repair** (`fixes/c10-merge-order.diff`, not applied: `for line in sorted(copyright_lines)`).
+    Merging the *sorted* lines is a function of the set, ties or not — by `C10_sorted_order`. -/
+theorem C10_merge_sorted_order {l₁ l₂ : List Text} (h : l₁.Perm l₂) :
+    mergeLines (sortTexts l₁) = mergeLines (sortTexts l₂) := by
+  rw [C10_sorted_order h]
+
 /-- **`create_header` with `--merge-copyrights` (partial: no ties).**  As `C10_header_order`, for every
     configuration; with `c.merge = true` under the hypothesis that the lines the merge step receives — the request
     when there is no header, else the union of the request and what the header declares (`cprInput`) — are
